@@ -89,9 +89,10 @@ def run(ctx):
         "states are de-duplicated on a 128-bit digest of a fingerprint of all fields later operations can read (list "
         "orders, modified set, visited stamps relative to the counter, scratch fields); concurrency_maximum_ is left out",
         "rates compared with relative tolerance 1e-9",
-        "start states 'counter-near-wrap*' / 'counter-at-wrap*' set visited_counter_ to UINT_MAX-1 / 0 directly instead of "
-        "running 2^32 solves; with 'stale-stamps' the pre-loaded variables keep the stamps they got while the counter was 1..2 "
-        "(the state reached when those 2^32 solves concern other constraints)",
+        "start states 'counter-near-wrap*' / 'counter-at-wrap*' set visited_counter_ to UINT_MAX-1 / UINT_MAX directly instead "
+        "of running 2^32 solves; with 'stale-stamps' the pre-loaded variables keep the stamps they got while the counter was "
+        "1..2 (the state reached when those 2^32 solves concern other constraints). The value 0 is never preset: it is not "
+        "reachable once the counter skips it",
         "the variable mallocator of each System is shrunk to 8 objects (performance only)",
         "the 'propagation-missed-by' part of a case key is a diagnosis computed by the harness, it never decides a verdict",
     ]
